@@ -22,22 +22,29 @@
 (* returns fewer bytes than asked is followed by another one: pipes, ttys,  *)
 (* sockets deliver in bursts); "once" takes the first short count for the   *)
 (* end of the stream and is kept as a second negative instance.             *)
+(* A write() may also transfer only part of the buffer without any error    *)
+(* (a pipe or socket that takes what fits, a signal after the first bytes): *)
+(* fault kind "burst".  safe_file_write then calls write() again for the    *)
+(* rest; ResumeConvention = "advance" (the shipped loop: d += temp) goes on *)
+(* where the transfer stopped, "restart" sends the beginning of the buffer  *)
+(* again - right length, wrong bytes - and is the third negative instance.  *)
 EXTENDS Integers, Sequences, TLC
 
-CONSTANTS MaxBlocks, WriteConvention, ReadConvention
+CONSTANTS MaxBlocks, WriteConvention, ReadConvention, ResumeConvention
 
 Ops == {"open", "read", "write", "getrandom"}
-Kinds == {"error", "short", "eintr"}
+Kinds == {"error", "short", "eintr", "burst"}
 NoFault == [op |-> "none", k |-> 0, kind |-> "none"]
 Faults == {NoFault} \cup [op : Ops, k : 1..(2 * MaxBlocks + 6), kind : {"error", "eintr"}]
           \cup [op : {"write"}, k : 1..(2 * MaxBlocks + 6), kind : {"short"}]    \* disk full after a partial write
           \cup [op : {"read"}, k : 1..(2 * MaxBlocks + 6), kind : {"short"}]     \* a burst boundary of a pipe: not the end
+          \cup [op : {"write"}, k : 1..(2 * MaxBlocks + 6), kind : {"burst"}]    \* part of the buffer taken, no error
 
 \* the encrypted input of a decryption: which parts are authentic
 Inputs == [hdr : BOOLEAN, pw : BOOLEAN, tag16 : BOOLEAN, blocks : 0..MaxBlocks, body : BOOLEAN, tag : BOOLEAN]
 
-VARIABLES mode, fault, input, pc, exitv, outExists, outBlocks, calls, tripped, blk, stderr
-vars == <<mode, fault, input, pc, exitv, outExists, outBlocks, calls, tripped, blk, stderr>>
+VARIABLES mode, fault, input, pc, exitv, outExists, outBlocks, calls, tripped, blk, stderr, outGood
+vars == <<mode, fault, input, pc, exitv, outExists, outBlocks, calls, tripped, blk, stderr, outGood>>
 
 Authentic(i) == i.hdr /\ i.pw /\ i.tag16 /\ i.body /\ i.tag
 
@@ -46,7 +53,7 @@ Init == /\ mode \in {"enc", "dec"}
         /\ input \in (IF mode = "enc" THEN {[hdr |-> TRUE, pw |-> TRUE, tag16 |-> TRUE, blocks |-> n, body |-> TRUE, tag |-> TRUE] : n \in 0..MaxBlocks}
                       ELSE Inputs)
         /\ pc = "open_in" /\ exitv = 0 /\ outExists = FALSE /\ outBlocks = 0
-        /\ calls = [o \in Ops |-> 0] /\ tripped = FALSE /\ blk = 0 /\ stderr = FALSE
+        /\ calls = [o \in Ops |-> 0] /\ tripped = FALSE /\ blk = 0 /\ stderr = FALSE /\ outGood = TRUE
 
 \* One system call of kind op: returns "ok", "fail" or "short".  EINTR is retried by the safe_file
 \* wrappers and by the entropy reader, so it is "ok" after one more call.
@@ -57,10 +64,12 @@ Sys(op) ==
               ELSE IF here /\ fault.kind = "short" /\ op = "write" THEN "short"
               ELSE IF here /\ fault.kind = "short" /\ op = "read" THEN (IF ReadConvention = "loop" THEN "ok" ELSE "eof")
               ELSE IF tripped /\ fault.op = op /\ op = "write" /\ fault.kind = "short" THEN "fail"   \* disk stays full
-              ELSE "ok",
-      calls |-> [calls EXCEPT ![op] = IF here /\ (fault.kind = "eintr" \/ (fault.kind = "short" /\ op = "read" /\ ReadConvention = "loop")) THEN n + 1 ELSE n],
+              ELSE "ok",      \* includes "burst": the wrapper's second write() completes the buffer
+      calls |-> [calls EXCEPT ![op] = IF here /\ (fault.kind \in {"eintr", "burst"} \/ (fault.kind = "short" /\ op = "read" /\ ReadConvention = "loop")) THEN n + 1 ELSE n],
+      \* the bytes that reached the file are the buffer's, unless the resumed write started over
+      damaged |-> here /\ fault.kind = "burst" /\ ResumeConvention = "restart",
       \* a disturbance is a fault the tool cannot absorb: EINTR and a short read of a live stream are not
-      trip |-> tripped \/ (here /\ fault.kind # "eintr" /\ ~(fault.kind = "short" /\ op = "read"))]
+      trip |-> tripped \/ (here /\ fault.kind \notin {"eintr", "burst"} /\ ~(fault.kind = "short" /\ op = "read"))]
 
 \* did a write of a whole buffer succeed, as the tool judges it?
 WriteOK(res) == IF WriteConvention = "count" THEN res = "ok"
@@ -74,13 +83,13 @@ OpenIn == /\ pc = "open_in"
              /\ calls' = s.calls /\ tripped' = s.trip
              /\ IF s.res = "ok" THEN Goto("open_out") /\ UNCHANGED <<exitv, stderr>>
                 ELSE /\ exitv' = 0 /\ stderr' = TRUE /\ Goto("done")          \* returns before any output exists
-          /\ UNCHANGED <<mode, fault, input, outExists, outBlocks, blk>>
+          /\ UNCHANGED <<mode, fault, input, outExists, outBlocks, blk, outGood>>
 OpenOut == /\ pc = "open_out"
            /\ LET s == Sys("open") IN
               /\ calls' = s.calls /\ tripped' = s.trip
               /\ IF s.res = "ok" THEN /\ outExists' = TRUE /\ Goto(IF mode = "enc" THEN "random" ELSE "read_hdr") /\ UNCHANGED <<exitv, stderr>>
                  ELSE /\ exitv' = 0 /\ stderr' = TRUE /\ Goto("done") /\ UNCHANGED outExists
-           /\ UNCHANGED <<mode, fault, input, outBlocks, blk>>
+           /\ UNCHANGED <<mode, fault, input, outBlocks, blk, outGood>>
 
 \* ---- encryption
 Random == /\ pc = "random"
@@ -88,10 +97,10 @@ Random == /\ pc = "random"
              /\ calls' = s.calls /\ tripped' = s.trip
              /\ IF s.res = "ok" THEN /\ exitv' = 1 /\ Goto("write_hdr") /\ UNCHANGED stderr
                 ELSE Fail("cleanup")
-          /\ UNCHANGED <<mode, fault, input, outExists, outBlocks, blk>>
+          /\ UNCHANGED <<mode, fault, input, outExists, outBlocks, blk, outGood>>
 WriteHdr == /\ pc = "write_hdr"
             /\ LET s == Sys("write") IN
-               /\ calls' = s.calls /\ tripped' = s.trip
+               /\ calls' = s.calls /\ tripped' = s.trip /\ outGood' = (outGood /\ ~s.damaged)
                /\ exitv' = IF WriteOK(s.res) THEN exitv ELSE 0
                /\ Goto("enc_read")
             /\ UNCHANGED <<mode, fault, input, outExists, outBlocks, blk, stderr>>
@@ -102,10 +111,10 @@ EncRead == /\ pc = "enc_read"
                    /\ IF s.res = "fail" THEN /\ exitv' = 0 /\ stderr' = TRUE /\ Goto("enc_final") /\ UNCHANGED blk
                       ELSE IF blk >= input.blocks \/ s.res = "eof" THEN Goto("enc_final") /\ UNCHANGED <<exitv, blk, stderr>>     \* end of file
                       ELSE /\ blk' = blk + 1 /\ Goto("enc_write") /\ UNCHANGED <<exitv, stderr>>
-           /\ UNCHANGED <<mode, fault, input, outExists, outBlocks>>
+           /\ UNCHANGED <<mode, fault, input, outExists, outBlocks, outGood>>
 EncWrite == /\ pc = "enc_write"
             /\ LET s == Sys("write") IN
-               /\ calls' = s.calls /\ tripped' = s.trip
+               /\ calls' = s.calls /\ tripped' = s.trip /\ outGood' = (outGood /\ ~s.damaged)
                /\ exitv' = IF WriteOK(s.res) THEN exitv ELSE 0
                /\ outBlocks' = IF s.res = "ok" THEN outBlocks + 1 ELSE outBlocks
                /\ Goto("enc_read")
@@ -113,9 +122,9 @@ EncWrite == /\ pc = "enc_write"
 EncFinal == /\ pc = "enc_final"
             /\ IF exitv = 1
                THEN LET s == Sys("write") IN
-                    /\ calls' = s.calls /\ tripped' = s.trip
+                    /\ calls' = s.calls /\ tripped' = s.trip /\ outGood' = (outGood /\ ~s.damaged)
                     /\ exitv' = IF WriteOK(s.res) THEN 1 ELSE 0
-               ELSE UNCHANGED <<calls, tripped, exitv>>
+               ELSE UNCHANGED <<calls, tripped, exitv, outGood>>
             /\ Goto("cleanup")
             /\ UNCHANGED <<mode, fault, input, outExists, outBlocks, blk, stderr>>
 
@@ -126,13 +135,13 @@ ReadHdr == /\ pc = "read_hdr"
               /\ IF s.res # "ok" \/ ~input.hdr THEN Fail("cleanup")                 \* unrecognized format
                  ELSE IF ~input.pw THEN Fail("cleanup")                              \* password is incorrect
                  ELSE Goto("read16") /\ UNCHANGED <<exitv, stderr>>
-           /\ UNCHANGED <<mode, fault, input, outExists, outBlocks, blk>>
+           /\ UNCHANGED <<mode, fault, input, outExists, outBlocks, blk, outGood>>
 Read16 == /\ pc = "read16"
           /\ LET s == Sys("read") IN
              /\ calls' = s.calls /\ tripped' = s.trip
              /\ IF s.res # "ok" \/ ~input.tag16 THEN Fail("cleanup")               \* encrypted data is truncated
                 ELSE /\ exitv' = 1 /\ Goto("dec_read") /\ UNCHANGED stderr
-          /\ UNCHANGED <<mode, fault, input, outExists, outBlocks, blk>>
+          /\ UNCHANGED <<mode, fault, input, outExists, outBlocks, blk, outGood>>
 DecRead == /\ pc = "dec_read"
            /\ IF exitv = 0 THEN Goto("dec_final") /\ UNCHANGED <<calls, tripped, exitv, blk, stderr>>
               ELSE LET s == Sys("read") IN
@@ -140,10 +149,10 @@ DecRead == /\ pc = "dec_read"
                    /\ IF s.res = "fail" THEN /\ exitv' = 0 /\ stderr' = TRUE /\ Goto("dec_final") /\ UNCHANGED blk
                       ELSE IF blk >= input.blocks \/ s.res = "eof" THEN Goto("dec_final") /\ UNCHANGED <<exitv, blk, stderr>>
                       ELSE /\ blk' = blk + 1 /\ Goto("dec_write") /\ UNCHANGED <<exitv, stderr>>
-           /\ UNCHANGED <<mode, fault, input, outExists, outBlocks>>
+           /\ UNCHANGED <<mode, fault, input, outExists, outBlocks, outGood>>
 DecWrite == /\ pc = "dec_write"
             /\ LET s == Sys("write") IN
-               /\ calls' = s.calls /\ tripped' = s.trip
+               /\ calls' = s.calls /\ tripped' = s.trip /\ outGood' = (outGood /\ ~s.damaged)
                /\ exitv' = IF WriteOK(s.res) THEN exitv ELSE 0
                /\ outBlocks' = IF s.res = "ok" THEN outBlocks + 1 ELSE outBlocks
                /\ Goto("dec_read")
@@ -152,12 +161,12 @@ DecFinal == /\ pc = "dec_final"
             /\ LET tagok == input.body /\ input.tag IN
                IF ~tagok /\ exitv = 1 THEN /\ exitv' = 0 /\ stderr' = TRUE ELSE UNCHANGED <<exitv, stderr>>
             /\ Goto("cleanup")
-            /\ UNCHANGED <<mode, fault, input, outExists, outBlocks, blk, calls, tripped>>
+            /\ UNCHANGED <<mode, fault, input, outExists, outBlocks, blk, calls, tripped, outGood>>
 
 Cleanup == /\ pc = "cleanup"
            /\ outExists' = IF exitv = 0 THEN FALSE ELSE outExists            \* safe_file_delete on failure
            /\ Goto("done")
-           /\ UNCHANGED <<mode, fault, input, exitv, outBlocks, calls, tripped, blk, stderr>>
+           /\ UNCHANGED <<mode, fault, input, exitv, outBlocks, calls, tripped, blk, stderr, outGood>>
 
 Next == OpenIn \/ OpenOut \/ Random \/ WriteHdr \/ EncRead \/ EncWrite \/ EncFinal
         \/ ReadHdr \/ Read16 \/ DecRead \/ DecWrite \/ DecFinal \/ Cleanup
@@ -167,7 +176,7 @@ Spec == Init /\ [][Next]_vars
 Done == pc = "done"
 ExitStatus == IF exitv = 1 THEN 0 ELSE 1
 Disturbed == tripped                                \* a non-EINTR fault was actually injected
-R == (Done /\ ~Disturbed /\ Authentic(input)) => (ExitStatus = 0 /\ outExists /\ outBlocks = input.blocks)
+R == (Done /\ ~Disturbed /\ Authentic(input)) => (ExitStatus = 0 /\ outExists /\ outBlocks = input.blocks /\ outGood)
 T == (Done /\ ~Authentic(input)) => (ExitStatus # 0 /\ ~outExists)
 F == (Done /\ Disturbed) => (ExitStatus # 0 /\ ~outExists)
 Loud == (Done /\ ExitStatus # 0) => stderr
